@@ -8,21 +8,26 @@ From RN Require Import SM.Replay SM.ReplayProofs RaftLog.SnapFileProofs.
 From Coq Require Import Ascii Lia.
 Local Open Scope string_scope.
 
-Definition tree_of (c : comp) : string :=
-  match c with
+Definition tree_of (c : comp) : list N :=
+  bytes_of_lit match c with
   | KSequence => "T_SEQUENCE" | KConfig => "T_CONFIG" | KTable => "T_USER"
   | KNamespace => "T_NAMESPACE" | KMcp => "T_MCP_SERVER" | KNaming => "T_NAMING_INSTANCE"
   | KCache => "T_DIRECT_CACHE"
   end.
 
-(** ** a small record codec (tree, key, value), bodies shorter than 128 bytes *)
-Definition bytes_of_string (s : string) : list N := map N_of_ascii (list_ascii_of_string s).
-Definition string_of_bytes (l : list N) : string := string_of_list_ascii (map ascii_of_N l).
+Lemma bytes_eqb_refl a : bytes_eqb a a = true.
+Proof. induction a as [| x a IH]; simpl; [reflexivity |]. now rewrite N.eqb_refl, IH. Qed.
 
+Lemma bytes_eqb_eq a b : bytes_eqb a b = true <-> a = b.
+Proof.
+  split; [| intros ->; apply bytes_eqb_refl].
+  revert b. induction a as [| x a IH]; intros [| y b]; simpl; try discriminate; [reflexivity |].
+  intros E. apply andb_true_iff in E. destruct E as [E1 E2]. apply N.eqb_eq in E1. f_equal; auto.
+Qed.
+
+(** ** a small record codec (tree, key, value), bodies shorter than 128 bytes *)
 Definition enc_rec (r : record) : list N :=
-  let tb := bytes_of_string (rtree r) in
-  let kb := bytes_of_string (rkey r) in
-  N.of_nat (List.length tb) :: tb ++ N.of_nat (List.length kb) :: kb ++ rval r.
+  N.of_nat (List.length (rtree r)) :: rtree r ++ N.of_nat (List.length (rkey r)) :: rkey r ++ rval r.
 
 Definition dec_body (b : list N) : option record :=
   match b with
@@ -32,8 +37,7 @@ Definition dec_body (b : list N) : option record :=
       match skipn (N.to_nat tl) rest with
       | [] => None
       | kl :: rest2 =>
-          Some (mkRec (string_of_bytes tb) (string_of_bytes (firstn (N.to_nat kl) rest2))
-                      (skipn (N.to_nat kl) rest2))
+          Some (mkRec tb (firstn (N.to_nat kl) rest2) (skipn (N.to_nat kl) rest2))
       end
   end.
 
@@ -43,7 +47,7 @@ Definition dec_frame1 (f : list N) : option record :=
 
 (** ** (1) registers *)
 Definition rapply (_ : comp) (s m : N) : N := (s + m)%N.
-Definition rsnap (c : comp) (s : N) : list record := [mkRec (tree_of c) "k" [s]].
+Definition rsnap (c : comp) (s : N) : list record := [mkRec (tree_of c) (bytes_of_lit "k") [s]].
 Definition rload (_ : comp) (_ : load_msg) (s : N) (r : record) : N :=
   match rval r with [v] => v | _ => s end.
 Definition rinit (_ : comp) : N := 0%N.
@@ -71,8 +75,10 @@ Example reg_in_scope :
   run N N rapply reg_hist (init_node N rinit) KSequence = 2%N.
 Proof.
   split; [simpl; lia |]. split; [| split; reflexivity].
-  split; [discriminate |]. split; [simpl; lia |].
-  vm_compute. repeat (apply Forall_cons; [split; [reflexivity | discriminate] |]). apply Forall_nil.
+  split; [split; [discriminate | split; [repeat constructor | reflexivity]] |]. split; [simpl; lia |].
+  match goal with |- Forall ?P ?l => let l' := eval vm_compute in l in change (Forall P l') end.
+  repeat (apply Forall_cons; [split; [vm_compute; reflexivity | split; [discriminate | split; [repeat constructor | reflexivity]]] |]).
+  apply Forall_nil.
 Qed.
 
 (** compaction concurrent with apply: the Config register takes its record one entry after
@@ -87,15 +93,15 @@ Lemma concurrent_compaction_double_applies :
 Proof. repeat split. Qed.
 
 (** ** (2) key-value component *)
-Inductive kvmsg := KSet (k : string) (v : list N) | KDel (k : string).
-Definition kvstate := list (string * list N).
+Inductive kvmsg := KSet (k : list N) (v : list N) | KDel (k : list N).
+Definition kvstate := list (list N * list N).
 
-Definition removek (k : string) (s : kvstate) : kvstate :=
-  filter (fun kv => negb (String.eqb (fst kv) k)) s.
-Fixpoint lookupk (k : string) (s : kvstate) : option (list N) :=
+Definition removek (k : list N) (s : kvstate) : kvstate :=
+  filter (fun kv => negb (bytes_eqb (fst kv) k)) s.
+Fixpoint lookupk (k : list N) (s : kvstate) : option (list N) :=
   match s with
   | [] => None
-  | (k', v) :: s' => if String.eqb k' k then Some v else lookupk k s'
+  | (k', v) :: s' => if bytes_eqb k' k then Some v else lookupk k s'
   end.
 
 Definition kapply (_ : comp) (s : kvstate) (m : kvmsg) : kvstate :=
@@ -106,10 +112,12 @@ Definition kload (_ : comp) (_ : load_msg) (s : kvstate) (r : record) : kvstate 
   (removek (rkey r) s ++ [(rkey r, rval r)])%list.
 Definition kinit (_ : comp) : kvstate := [].
 
+Definition kb (s : string) : list N := bytes_of_lit s.
+
 (** users a, b, c are created; c is deleted again *)
 Definition kv_hist : list (entry kvmsg) :=
-  [Some (KTable, KSet "a" [1]%N); Some (KTable, KSet "b" [2]%N); Some (KTable, KSet "c" [3]%N);
-   Some (KTable, KDel "c")].
+  [Some (KTable, KSet (kb "a") [1]%N); Some (KTable, KSet (kb "b") [2]%N); Some (KTable, KSet (kb "c") [3]%N);
+   Some (KTable, KDel (kb "c"))].
 
 Definition kv_hdr : list N := [8; 5]%N.
 
@@ -122,49 +130,49 @@ Definition kv_leftover : list N :=
 Definition kv_restart (W : list N -> list N -> list N) : res (node kvstate) :=
   restart kvstate kvmsg kapply ksnap kload kinit enc_rec dec_frame1 W kv_leftover kv_hdr kv_hist 4.
 
-Definition served (r : res (node kvstate)) (k : string) : res (option (list N)) :=
+Definition served (r : res (node kvstate)) (k : list N) : res (option (list N)) :=
   res_map (fun nd => lookupk k (nd KTable)) r.
 
 (** before the stop the node serves a and b, and c is gone *)
 Lemma kv_before_stop :
   let nd := run kvstate kvmsg kapply kv_hist (init_node kvstate kinit) in
-  lookupk "a" (nd KTable) = Some [1]%N /\ lookupk "b" (nd KTable) = Some [2]%N /\
-  lookupk "c" (nd KTable) = None.
+  lookupk (kb "a") (nd KTable) = Some [1]%N /\ lookupk (kb "b") (nd KTable) = Some [2]%N /\
+  lookupk (kb "c") (nd KTable) = None.
 Proof. repeat split. Qed.
 
 (** the writer without truncate: the deleted user c is served again after the restart *)
 Lemma kv_in_place_resurrects :
-  served (kv_restart write_in_place) "a" = Ok (Some [1]%N) /\
-  served (kv_restart write_in_place) "b" = Ok (Some [2]%N) /\
-  served (kv_restart write_in_place) "c" = Ok (Some [3]%N).
+  served (kv_restart write_in_place) (kb "a") = Ok (Some [1]%N) /\
+  served (kv_restart write_in_place) (kb "b") = Ok (Some [2]%N) /\
+  served (kv_restart write_in_place) (kb "c") = Ok (Some [3]%N).
 Proof. vm_compute. repeat split. Qed.
 
 (** the repaired writer: the restart serves exactly what was served before the stop *)
 Lemma kv_truncate_exact :
-  served (kv_restart write_truncate) "a" = Ok (Some [1]%N) /\
-  served (kv_restart write_truncate) "b" = Ok (Some [2]%N) /\
-  served (kv_restart write_truncate) "c" = Ok None.
+  served (kv_restart write_truncate) (kb "a") = Ok (Some [1]%N) /\
+  served (kv_restart write_truncate) (kb "b") = Ok (Some [2]%N) /\
+  served (kv_restart write_truncate) (kb "c") = Ok None.
 Proof. vm_compute. repeat split. Qed.
 
 (** the statement of interrupted_compaction_harmless is false of the old writer *)
 Lemma interrupted_compaction_harmless_refuted :
   exists (hist : list (entry kvmsg)) (k : nat) (leftover hdr : list N),
-    res_map (fun nd => lookupk "c" (nd KTable))
+    res_map (fun nd => lookupk (kb "c") (nd KTable))
             (restart kvstate kvmsg kapply ksnap kload kinit enc_rec dec_frame1 write_in_place leftover hdr hist k)
-    <> res_map (fun nd => lookupk "c" (nd KTable))
+    <> res_map (fun nd => lookupk (kb "c") (nd KTable))
                (restart kvstate kvmsg kapply ksnap kload kinit enc_rec dec_frame1 write_in_place [] hdr hist k).
 Proof. exists kv_hist, 4%nat, kv_leftover, kv_hdr. vm_compute. discriminate. Qed.
 
 (** ** last-write-wins components are replay-idempotent (so a compaction that raced with
     later applies is harmless for them: ReplayProofs.restart_racy_idempotent); the register
     (an accumulating component, like a sequence or a history list) is not. *)
-Fixpoint lookupl (k : string) (s : kvstate) : option (list N) :=
+Fixpoint lookupl (k : list N) (s : kvstate) : option (list N) :=
   match s with
   | [] => None
   | (k', v) :: s' =>
       match lookupl k s' with
       | Some x => Some x
-      | None => if String.eqb k' k then Some v else None
+      | None => if bytes_eqb k' k then Some v else None
       end
   end.
 
@@ -179,27 +187,27 @@ Proof.
 Qed.
 
 Lemma lookupl_removek k k' s :
-  lookupl k (removek k' s) = if String.eqb k' k then None else lookupl k s.
+  lookupl k (removek k' s) = if bytes_eqb k' k then None else lookupl k s.
 Proof.
   induction s as [| [k2 v] s IH]; simpl.
-  - now destruct (String.eqb k' k).
-  - destruct (String.eqb k2 k') eqn:E2; simpl.
-    + apply String.eqb_eq in E2. subst k2. rewrite IH.
-      destruct (String.eqb k' k); [reflexivity |]. now destruct (lookupl k s).
-    + rewrite IH. destruct (String.eqb k' k) eqn:E1; [| reflexivity].
-      apply String.eqb_eq in E1. subst k. now rewrite E2.
+  - now destruct (bytes_eqb k' k).
+  - destruct (bytes_eqb k2 k') eqn:E2; simpl.
+    + apply bytes_eqb_eq in E2. subst k2. rewrite IH.
+      destruct (bytes_eqb k' k); [reflexivity |]. now destruct (lookupl k s).
+    + rewrite IH. destruct (bytes_eqb k' k) eqn:E1; [| reflexivity].
+      apply bytes_eqb_eq in E1. subst k. now rewrite E2.
 Qed.
 
-Definition updk (k : string) (d : option (list N)) (m : kvmsg) : option (list N) :=
+Definition updk (k : list N) (d : option (list N)) (m : kvmsg) : option (list N) :=
   match m with
-  | KSet k' v => if String.eqb k' k then Some v else d
-  | KDel k' => if String.eqb k' k then None else d
+  | KSet k' v => if bytes_eqb k' k then Some v else d
+  | KDel k' => if bytes_eqb k' k then None else d
   end.
 
 Lemma lookupl_kapply c k s m : lookupl k (kapply c s m) = updk k (lookupl k s) m.
 Proof.
   destruct m as [k' v | k']; simpl.
-  - rewrite lookupl_app. simpl. rewrite lookupl_removek. now destruct (String.eqb k' k).
+  - rewrite lookupl_app. simpl. rewrite lookupl_removek. now destruct (bytes_eqb k' k).
   - apply lookupl_removek.
 Qed.
 
@@ -212,7 +220,7 @@ Lemma lw_const_or_id k h :
 Proof.
   induction h as [| m h IH]; [left; reflexivity |].
   destruct IH as [ID | [c CO]].
-  - simpl. destruct m as [k' v | k']; simpl; destruct (String.eqb k' k);
+  - simpl. destruct m as [k' v | k']; simpl; destruct (bytes_eqb k' k);
       first [ right; eexists; intros d; rewrite ID; reflexivity | left; intros d; apply ID ].
   - right. exists c. intros d. simpl. apply CO.
 Qed.
